@@ -9,7 +9,7 @@ from cliutil import run_cli
 from worlds import GenomeWorld
 
 PROPS = ('GambitV.Props.C16', 'GambitV.C16')
-TIE = [('GambitV.Tie.PyLabels', 'GambitV.Tie.Py'), ('GambitV.Tie.PyDistFlow', 'GambitV.Tie.Py'), ('GambitV.Tie.PySeqFiles', 'GambitV.Tie.Py'), ('GambitV.Tie.PyZipStrict', 'GambitV.Tie.Py'), ('GambitV.Tie.PyDmatCsv', 'GambitV.Tie.Py')]
+TIE = [('GambitV.Tie.PyLabels', 'GambitV.Tie.Py'), ('GambitV.Tie.PyDistFlow', 'GambitV.Tie.Py'), ('GambitV.Tie.PySeqFiles', 'GambitV.Tie.Py'), ('GambitV.Tie.PyZipStrict', 'GambitV.Tie.Py'), ('GambitV.Tie.PyDmatCsv', 'GambitV.Tie.Py'), ('GambitV.Tie.PyPropsC16', 'GambitV.Tie.Py')]
 RULE = ('(query genomes, reference genomes, how each side is supplied: 3 x 5 = files / list file + base directory / signature file x files / list / '
         'signature file / database / --square, -k/-p given or not, -c cores). File names include spaces, commas, quotes, double extensions, .gz. '
         'The Lean model distCsv is instantiated with cell(i,j) := bits of the real jaccarddist of the real single-genome signatures; labels are derived in '
